@@ -73,11 +73,20 @@ Revoke(how) ==
           /\ last' = [ep |-> <<"revoke", "-">>, cred |-> "valid", out |-> "accepted"]
           /\ UNCHANGED acl
 
+(* the last trusted device revokes itself (the server accepts such a patch; *)
+(* only the client refuses to build it): nothing is trusted any more        *)
+RevokeLast ==
+          /\ trusted = {"k1"} /\ revokedBy = "sync"
+          /\ trusted' = {} /\ ver' = ver + 1
+          /\ last' = [ep |-> <<"revoke", "-">>, cred |-> "valid", out |-> "accepted"]
+          /\ UNCHANGED <<acl, revokedBy>>
+
 SetAcl(c) == /\ acl' = c /\ c # acl /\ UNCHANGED <<trusted, revokedBy, ver>>
              /\ last' = [ep |-> <<"config", "-">>, cred |-> "-", out |-> "-"]
 
 Next == \/ \E ep \in Endpoints, cred \in Creds : Request(ep, cred)
         \/ \E how \in {"sync", "force"} : Revoke(how)
+        \/ RevokeLast
         \/ \E c \in Acls : SetAcl(c)
 
 Spec == Init /\ [][Next]_vars
